@@ -641,6 +641,13 @@ impl CommandHub {
             return;
         };
 
+        // A task created during this very loop iteration still sits in
+        // `queued_tasks`: when the worker's answer is read in the same poll
+        // batch as the client's request it must not be dropped as unknown.
+        if !self.server.queued_tasks.is_empty() {
+            let queued = std::mem::take(&mut self.server.queued_tasks);
+            self.tasks.extend(queued);
+        }
         let task = match self.tasks.get_mut(&task_id) {
             Some(task) => task,
             None => {
